@@ -5,6 +5,7 @@ import (
 	"go/ast"
 	"go/token"
 	"go/types"
+	"sort"
 	"strings"
 
 	"golang.org/x/tools/go/ssa"
@@ -168,8 +169,8 @@ func (c *Ctx) ruleSeqOnlyAccessor(rule string) {
 			continue
 		}
 		ck := ir.OuterKey(e.Caller.Func)
-		if why, ok := allowed[ck]; ok {
-			r.Ok(rule, ck, "GetAsSeqList", c.P.InstrPos(e.Site), why)
+		if fam := c.familyKey(e.Caller.Func, []string{"(*internal/pkg/table.AsPathCondition).Evaluate", "(*internal/pkg/table.AsPathPrependAction).Apply"}); fam != "" {
+			r.Ok(rule, ck, "GetAsSeqList", c.P.InstrPos(e.Site), allowed[fam])
 		} else {
 			r.Bad(rule, ck, "GetAsSeqList", c.P.InstrPos(e.Site), "a caller outside the AS-path policy code uses the sequence-only AS list: ASes that occur only inside an AS_SET are not seen (a loop test would let such a route through)")
 		}
@@ -202,7 +203,12 @@ func (c *Ctx) ruleHoldTimerSource(rule string) {
 				n++
 				fk := ir.OuterKey(fn)
 				cons := fmt.Sprintf("Timers.Config.HoldTime #%d", n)
-				if allowed[fk] {
+				var keys []string
+				for k := range allowed {
+					keys = append(keys, k)
+				}
+				sort.Strings(keys)
+				if c.familyKey(fn, keys) != "" {
 					r.Ok(rule, fk, cons, c.P.InstrPos(fa), "OPEN construction / negotiation / API conversion")
 				} else {
 					r.Bad(rule, fk, cons, c.P.InstrPos(fa), "timer code reads the locally configured hold time instead of the negotiated one: the session no longer runs on min(local, remote)")
@@ -1348,7 +1354,31 @@ func (c *Ctx) ruleWithdrawalsFirst(rule string) {
 			return walk(v)
 		}
 		isParam := func(v ssa.Value) bool { return v == ssa.Value(pathsParam) }
-		isMake := func(v ssa.Value) bool { _, ok := v.(*ssa.MakeSlice); return ok }
+		// a list made here, or the result of a helper of the package that returns a list it made
+		var isMake func(v ssa.Value) bool
+		isMake = func(v ssa.Value) bool {
+			if _, ok := v.(*ssa.MakeSlice); ok {
+				return true
+			}
+			call, ok := v.(*ssa.Call)
+			if !ok {
+				return false
+			}
+			cal := call.Call.StaticCallee()
+			if cal == nil || cal.Blocks == nil || !c.P.InModule(cal) || cal.Signature.Results().Len() != 1 {
+				return false
+			}
+			any := false
+			for _, b := range cal.Blocks {
+				if ret, ok := b.Instrs[len(b.Instrs)-1].(*ssa.Return); ok {
+					if !tracesTo(ret.Results[0], func(w ssa.Value) bool { _, ok := w.(*ssa.MakeSlice); return ok }) {
+						return false
+					}
+					any = true
+				}
+			}
+			return any
+		}
 		for _, b := range an.Blocks {
 			for _, in := range b.Instrs {
 				call, ok := in.(*ssa.Call)
